@@ -542,7 +542,8 @@ theorem lock_owner_agrees {cfg : Cfg} {s : State} (hr : Reach cfg s) (t : Tid) (
   exact of_all (key cfg) hr t (mem_tids t) l (mem_lockIds l)
 
 /-- In this instance, for all interleavings: each node lock and the root lock has at most one
-    holder. (Which fields a holder writes is fixed by `stepT`; that part is not a theorem.) -/
+    holder. (For which fields a step writes and under which lock, see `writeSet_frame`,
+    `writes_under_lock`, `no_write_to_retired` below.) -/
 theorem mutual_exclusion {cfg : Cfg} {s : State} (hr : Reach cfg s) (l : LockId) (t t' : Tid)
     (h : l ∈ s.held t) (h' : l ∈ s.held t') : t = t' := by
   have e := (lock_owner_agrees hr t l).mp h
@@ -589,9 +590,8 @@ theorem root_retry_dead {cfg : Cfg} {s : State} (hr : Reach cfg s) (t : Tid) :
     | mk f => cases f <;> decide +kernel
   exact of_all (key cfg) hr t (mem_tids t)
 
-/-- At most one of the two removes goes through the interior node (lines 9'..12'); a retired node
-    is never a leaf some thread still has to write to under the protocol: the only accesses to a
-    retired node are `lock I` / `unlock I` at 7/8' by the thread that read `q = I` too early. -/
+/-- In this instance, for all interleavings: `I` is retired together with exactly one leaf (at most
+    one of the two removes goes through lines 9'..12'). -/
 theorem one_collapser {cfg : Cfg} {s : State} (hr : Reach cfg s) :
     s.retI = true → (s.retA = true ∧ s.retB = false) ∨ (s.retA = false ∧ s.retB = true) := by
   have key : ∀ cfg : Cfg, ∀ s ∈ litStates cfg,
@@ -600,5 +600,94 @@ theorem one_collapser {cfg : Cfg} {s : State} (hr : Reach cfg s) :
     cases cfg with
     | mk f => cases f <;> decide +kernel
   exact of_all (key cfg) hr
+
+/-! ### which nodes a step writes (second half of 5, as far as it is formal) -/
+
+def State.retired (s : State) : Node → Bool
+  | .I => s.retI
+  | .A => s.retA
+  | .B => s.retB
+
+/-- the nodes whose fields OTHER THAN THE LOCK BIT the next line of thread `t` may store to
+    (`stayRoot` stores only when `cfg.fix`); justified by `writeSet_frame` -/
+def writeSet (s : State) (t : Tid) : List Node :=
+  let X := t.own
+  let x := s.leaf X
+  match s.pc t with
+  | .markDel | .stayRoot | .leave => [X.node]
+  | .chkPrev p =>
+    if (s.leaf p).deleted = true ∨ x.prev ≠ some p then []
+    else p.node :: (match x.next with
+      | some n => [n.node]
+      | none => [])
+  | .noPrev =>
+    match x.next with
+    | some n => [n.node]
+    | none => []
+  | .intDel => [.I]
+  | .promote => if s.rootPtr = .I then [.I, X.other.node] else []
+  | _ => []
+
+/-- the fields of node `n`, lock bit excluded, are the same in `s` and `s'` -/
+def sameData (s s' : State) : Node → Bool
+  | .I => s.i.deleted == s'.i.deleted && s.i.root == s'.i.root
+  | .A => decide ({ s.a with lock := none } = { s'.a with lock := none })
+  | .B => decide ({ s.b with lock := none } = { s'.b with lock := none })
+
+def nodes : List Node := [.I, .A, .B]
+
+theorem mem_nodes (n : Node) : n ∈ nodes := by cases n <;> simp [nodes]
+
+/-- In every reachable state of this instance, a step changes no field (lock bits aside) of a
+    node outside `writeSet`. -/
+theorem writeSet_frame {cfg : Cfg} {s s' : State} (hr : Reach cfg s) (t : Tid) (n : Node)
+    (h : step? cfg s (.step t) = some s') (hn : n ∉ writeSet s t) : sameData s s' n = true := by
+  have key : ∀ cfg : Cfg, ∀ s ∈ litStates cfg, ∀ t ∈ tids, ∀ n ∈ nodes, n ∉ writeSet s t →
+      ∀ s' ∈ (step? cfg s (.step t)).toList, sameData s s' n = true := by
+    intro cfg
+    cases cfg with
+    | mk f => cases f <;> decide +kernel
+  exact of_all (key cfg) hr t (mem_tids t) n (mem_nodes n) hn s' (by simp [h])
+
+/-- In this instance, for all interleavings: no step stores to a field of a retired node. The only
+    accesses to retired nodes are lock / unlock of the version word (line 4 on a retired `prev`
+    that then fails the `deleted` test of line 5, and line 7/8' on the retired `I` by the thread
+    that read `q = I` before the collapse), which epoch-based reclamation keeps safe. -/
+theorem no_write_to_retired {cfg : Cfg} {s : State} (hr : Reach cfg s) (t : Tid) (n : Node)
+    (hn : n ∈ writeSet s t) : s.retired n = false := by
+  have key : ∀ cfg : Cfg, ∀ s ∈ litStates cfg, ∀ t ∈ tids, ∀ n ∈ writeSet s t,
+      s.retired n = false := by
+    intro cfg
+    cases cfg with
+    | mk f => cases f <;> decide +kernel
+  exact of_all (key cfg) hr t (mem_tids t) n hn
+
+/-- In this instance, for all interleavings: a step stores to a leaf's fields only while holding
+    that leaf's lock, with two exceptions, both in the code: the `prev` of `X.next` at lines 5/5'
+    (`border_node.h:158,163`, guarded by the lock of `X` and of `X.prev` only) and the promoted
+    sibling at line 12' (`interior_helper.h:197,199`, guarded by the root lock); and it stores to
+    `I` only while holding `I`'s lock. -/
+theorem writes_under_lock {cfg : Cfg} {s : State} (hr : Reach cfg s) (t : Tid) :
+    (∀ L : Leaf, L.node ∈ writeSet s t → (s.leaf L).lock = some t ∨
+      (some L = (s.leaf t.own).next ∧ (s.pc t = .noPrev ∨ ∃ p, s.pc t = .chkPrev p)) ∨
+      (L = t.own.other ∧ s.pc t = .promote ∧ s.rootLock = some t)) ∧
+    (Node.I ∈ writeSet s t → s.i.lock = some t) := by
+  have key : ∀ cfg : Cfg, ∀ s ∈ litStates cfg, ∀ t ∈ tids,
+      (∀ L ∈ leaves, L.node ∈ writeSet s t → (s.leaf L).lock = some t ∨
+        (some L = (s.leaf t.own).next ∧ (s.pc t = .noPrev ∨ ∃ p ∈ leaves, s.pc t = .chkPrev p)) ∨
+        (L = t.own.other ∧ s.pc t = .promote ∧ s.rootLock = some t)) ∧
+      (Node.I ∈ writeSet s t → s.i.lock = some t) := by
+    intro cfg
+    cases cfg with
+    | mk f => cases f <;> decide +kernel
+  have h := of_all (key cfg) hr t (mem_tids t)
+  refine ⟨fun L hL => ?_, h.2⟩
+  rcases h.1 L (mem_leaves L) hL with h1 | ⟨h2, h3⟩ | h4
+  · exact Or.inl h1
+  · refine Or.inr (Or.inl ⟨h2, ?_⟩)
+    rcases h3 with h3 | ⟨p, _, hp⟩
+    · exact Or.inl h3
+    · exact Or.inr ⟨p, hp⟩
+  · exact Or.inr (Or.inr h4)
 
 end Yak.Proto.Collapse
